@@ -5,7 +5,7 @@ STREAM_NOTE = ("Trusted base: the reference executor in vlib/monitor.py (semanti
                "the per-class table of permitted adjoint passes read from the docstrings, and Hypothesis "
                "as the source of randomness. Exploration, not proof: n<=10 (quick) / n<=24 (thorough) "
                "exhaustively, sampled to n=160 / 400.")
-STREAM_TECH = "property-based testing: exhaustive small boxes + Hypothesis-generated configs + cold large-n probes + ordered sibling sequences in pristine processes, executed by a reference executor (validity-predicate oracle), collect-then-shrink"
+STREAM_TECH = "property-based testing: exhaustive small boxes + Hypothesis-generated configs + cold large-n probes + late-finalisation histories + deep-repetition probes + ordered sibling sequences in pristine processes, executed by a reference executor (validity-predicate oracle), collect-then-shrink"
 
 CHECKS = {
     "C01": dict(design_ref="DESIGN.md section 4 C01, 2.2", technique=STREAM_TECH, note=STREAM_NOTE,
@@ -38,7 +38,7 @@ CHECKS.update({
                 technique="property-based testing against a reference model: exhaustive optimal search over mixed schedules + independent DP; dense (n,s) grid to n=64/150, planner scan to n=220/420 (candidates confirmed by streams), boundary probe sequence in a pristine interpreter; metamorphic RAM vs DISK relation",
                 text="Mixed forward-step totals compared with the optimum over all schedules whose units hold a restart checkpoint or one step's adjoint data (search n<=8/11, DP to 64/300); RAM and DISK streams must be equal up to the label; helper optimal_steps_mixed must agree."),
     "C07": dict(design_ref="DESIGN.md section 4 C07, 3.3", note=ORACLE_NOTE,
-                technique="property-based testing: differential against exhaustive hierarchical search and independent H-Revolve/Disk-Revolve DPs, plus the metamorphic cost relations of the statement; asymmetric dyadic cost vectors by construction; dense DP grid and cost-table scan (candidates confirmed by streams)",
+                technique="property-based testing: differential against exhaustive hierarchical search and independent H-Revolve/Disk-Revolve DPs, plus the metamorphic cost relations of the statement; asymmetric dyadic cost vectors by construction, plus one-decimal and 2**(+-40)-rescaled cost units; dense DP grids and cost-table scan (candidates confirmed by streams)",
                 text="Stream cost (uf, ub, wd, rd weighted counts) of HRevolve / Revolve / DiskRevolve equals the optimum from exhaustive search (n<=7/9) and DP (n to 64/300) for asymmetric cost vectors; monotonicity in disk units, DiskRevolve<=Revolve, Periodic>=DiskRevolve checked on every group."),
     "C09": dict(design_ref="DESIGN.md section 4 C09", technique=STREAM_TECH + "; flag model from the documented per-class pass table; pass k compared tuple-for-tuple with pass 1 and re-executed", note=STREAM_NOTE,
                 text="is_running / is_exhausted read before the first next() and after every action, streams driven 3 next() calls past their end, multi-pass classes run for 1..3 passes with each repeat compared with pass 1 and executed by the reference executor."),
